@@ -318,6 +318,11 @@ def require_fix_markers():
     missing = [c for c in ("fanout", "unzip", "demux") if not push_fixed(c)]
     if not source_variant("sinktools/src/unzip.rs", "closed_0"):
         missing.append("sinktools unzip")
+    for rel, marker, what in (("dfir_pipes/src/push/flat_map.rs", "if self.buffer.is_some()", "flat_map poll_finalize"),
+                              ("dfir_pipes/src/push/flatten.rs", "if self.buffer.is_some()", "flatten poll_finalize"),
+                              ("dfir_pipes/src/push/resolve_futures.rs", "finalizing", "resolve_futures finalizing flag")):
+        if not source_variant(rel, marker):
+            missing.append(what)
     if missing:
         raise RuntimeError("source no longer contains the finalize-once/close-once code for: %s "
                            "(models in Push/Model.v, Push/SinkModel.v must be re-transcribed)" % missing)
@@ -396,22 +401,9 @@ def c_obs(res):
                              g_list([c_log(l) for l in res["logs"]]))
 
 
-def repair_flags():
-    """which of the proposed repairs the checked source tree contains (model variant selection)"""
-    fm = source_variant("dfir_pipes/src/push/flat_map.rs", "if self.buffer.is_some()")
-    fl = source_variant("dfir_pipes/src/push/flatten.rs", "if self.buffer.is_some()")
-    if fm != fl:
-        raise RuntimeError("flat_map.rs and flatten.rs disagree about the no-ready-after-finalize repair")
-    rf = source_variant("dfir_pipes/src/push/resolve_futures.rs", "finalizing")
-    return fm, rf
-
-
 def push_term(case, res, fn="chk12"):
     if "panic" not in res and "logs" not in res:
         return 3  # hang / crash / garbled: nothing to compare, no property can hold
-    if fn == "chk12":
-        fm, rf = repair_flags()
-        fn = "chk12x %s %s" % (g_bool(fm), g_bool(rf))
     return "(%s %s %d%%nat %s %s %s)" % (fn, c_comb(case, res), case["fuel"], c_items(case["items"]),
                                     c_downs(case["downs"]), c_obs(res))
 
